@@ -176,6 +176,31 @@ let run_case (line : string) =
               | _ -> out "noclaim")
            end else out "noclaim")
       | _ -> out "noclaim")
+   | "schema" ->
+     (* schema <oracles> <ro> <msg> : the guards of C05 / C12 for this case *)
+     let o = rd_oracles r in
+     let ro = rd_xml r in
+     let m = rd_xml r in
+     let b x = if x then "1" else "0" in
+     let timing = match Proto.rc_of ro with Some rc -> Elements.ro_stories_err o rc = None | None -> true in
+     (match Classify.classify m with
+      | Coq_inl _ -> out "noclass"
+      | Coq_inr k ->
+        out ("wf=" ^ b (Proto.wf_ro ro) ^ " msg=" ^ b (Proto.msg_ok m) ^ " schema=" ^ b (Proto.schema_ok k m)
+             ^ " payload=" ^ b (Proto.payload_wf k m) ^ " timing=" ^ b timing))
+   | "readers" ->
+     (* readers <inc> <n> <doc>* : MosCollection construction: sorted, validated *)
+     let inc = rd_bool r in
+     let ds = rd_list r rd_xml in
+     (match Collection.make_readers ds with
+      | Coq_inl e -> out "err "; out (exn_name e)
+      | Coq_inr rs ->
+        (match Collection.validate (Collection.sort_readers rs) inc with
+         | Coq_inl e -> out "err "; out (exn_name e)
+         | Coq_inr (rc, others) ->
+           out "ok "; out (string_of_int (int_of_n rc.Collection.rd_mid));
+           L.iter (fun rd -> outc (); out (string_of_int (int_of_n rd.Collection.rd_mid));
+                    out ":"; out (class_name rd.Collection.rd_class)) others))
    | "coll" ->
      let o = rd_oracles r in
      let inc = rd_bool r in
